@@ -52,6 +52,48 @@ pub fn hash(key: &[u8]) -> u64 {
     h
 }
 
+/// state of the documented hash of a key of `total_len` bytes after its first `prefix.len()` bytes (a multiple of 8)
+pub fn hash_prefix(total_len: usize, prefix: &[u8]) -> u64 {
+    fn xs(mut x: u64) -> u64 {
+        x ^= x >> 12;
+        x ^= x << 25;
+        x ^= x >> 27;
+        x
+    }
+    let mut h: u64 = xs(u64::from_be_bytes((total_len as u64).to_le_bytes()));
+    for c in prefix.chunks(8) {
+        let mut a: u64 = 0;
+        for b in c {
+            a = (a << 8) | *b as u64;
+        }
+        h = xs(h.wrapping_add(a));
+    }
+    h
+}
+
+/// `groups` groups of `per` different keys each; the keys of one group have the same documented 64-bit hash
+/// (16 + `tail` bytes: two 8-byte words A‖B with state(A) + B equal within a group, then a common tail)
+pub fn colliding_keys(salt: u64, groups: usize, per: usize, tail: usize) -> Vec<Vec<Vec<u8>>> {
+    let len = 16 + tail;
+    let mut out = Vec::new();
+    for g in 0..groups {
+        let target = (salt.wrapping_mul(0x9E37_79B9_7F4A_7C15) ^ (g as u64).wrapping_mul(0xD1B5_4A32_D192_ED03)) | 1;
+        let mut grp = Vec::new();
+        for i in 0..per {
+            let a = format!("c{:03}g{}k{}", salt % 1000, g % 10, i % 10).into_bytes();
+            let a = &a[..8];
+            let b = target.wrapping_sub(hash_prefix(len, a));
+            let mut k = a.to_vec();
+            k.extend_from_slice(&b.to_be_bytes());
+            k.extend(std::iter::repeat(b'~').take(tail));
+            grp.push(k);
+        }
+        debug_assert!(grp.iter().all(|k| hash(k) == hash(&grp[0])));
+        out.push(grp);
+    }
+    out
+}
+
 pub fn class_of(size: u64) -> usize {
     CLASSES.iter().position(|c| *c == size).unwrap_or(15)
 }
